@@ -826,6 +826,9 @@ static bool is_circle(const Array<Vec2> point_array, double tolerance, Vec2& cen
 
     double neighbor_distance_sq = tolerance + 2 * sqrt(2 * tolerance * (radius - tolerance));
     neighbor_distance_sq *= neighbor_distance_sq;
+    // Vertices close to the circle are not enough: they also have to go once around its center
+    // (a small sliver next to a large circle passes the distance tests above)
+    double turn = 0;
     Vec2* pt = point_array.items;
     Vec2* last = point_array.items + point_array.count - 1;
     for (uint64_t i = point_array.count; i > 0; i--) {
@@ -833,10 +836,11 @@ static bool is_circle(const Array<Vec2> point_array, double tolerance, Vec2& cen
             (*pt - *last).length_sq() >= neighbor_distance_sq) {
             return false;
         }
+        turn += (*last - center).angle(*pt - center);
         last = pt++;
     }
 
-    return true;
+    return fabs(turn) > M_PI;
 }
 
 ErrorCode Polygon::to_oas(OasisStream& out, OasisState& state) const {
